@@ -22,7 +22,7 @@ REQUIRED_MONITORS = ["C08.representation-equivalence", "C08.restriction", "C08.p
 
 
 def gen_cases(tier, seed):
-    reps = {"quick": 8, "thorough": 80}[tier]
+    reps = {"quick": 8, "thorough": 300}[tier]
     cases = []
     for name, e in POOL.items():
         for i in range(max(3, reps // e.slow)):
